@@ -489,7 +489,69 @@ def body_many(ctx, ny, nx, npts):
         ctx.check([int(i) for i in e.indexes] == [k for k in range(len(pts)) if not inside[k]], "'error' names exactly the points that miss, by position")
 
 
+def body_reference_cells(ctx, kind):
+    """Concrete datasets with special values in their geometry (a fill value of 0 in one-based tables, missing centres
+    next to the border of a grid without stored bounds, a lone invalid first cell): the cells are compared with
+    independent reference polygons, then points inside every reference cell, on shared sides and in the gaps are
+    extracted - each request gets the values of the lowest-numbered reference cell that touches it."""
+    from emsarray.operations import point_extraction
+    from harness import geomref
+    v = int(ctx.int('variant', 0, 1))
+    if kind == 'mesh-fill0':
+        ds = builders.ugrid(('qqqtt', 'tqp')[v], start_index=1, fill='attr', fill_value=0, supply=('edge_node',))
+        dims = ('nface',)
+    elif kind == 'mesh-fillmax':
+        ds = builders.ugrid(('qqqtt', 'tqp')[v], start_index=v, fill='attr', fill_value=(2 ** 31 - 1, -1)[v], supply=())
+        dims = ('nface',)
+    elif kind == 'cf2d-nan-near-border':
+        nj, ni = 4, 5
+        jj, ii = numpy.meshgrid(numpy.arange(nj, dtype=float), numpy.arange(ni, dtype=float), indexing='ij')
+        lat, lon = 10.0 + jj + 0.1 * ii, 100.0 + 2 * ii - 0.2 * jj
+        for (j, i) in (((1, 2),), ((2, 1), (2, 3)))[v]:
+            lat[j, i] = numpy.nan
+            lon[j, i] = numpy.nan
+        ds = builders.cf2d(nj, ni, lat=lat, lon=lon)
+        dims = tuple(ds['lat'].dims)
+    else:
+        raise ValueError(kind)
+    cv = ds.ems
+    ref = geomref.check(ctx, ds, cv)
+    N = len(ref)
+    shape = tuple(ds.sizes[d] for d in dims)
+    ds['cell'] = (dims, numpy.arange(N, dtype=float).reshape(shape) + 0.5)
+    pts = []
+    for n in range(N):
+        if ref[n] is None or ref[n].is_empty:
+            continue
+        pts.append(ref[n].representative_point())
+        c = ref[n].centroid
+        for x, y in list(ref[n].exterior.coords)[:-1]:
+            pts.append(shapely.Point(c.x + (x - c.x) * 0.97, c.y + (y - c.y) * 0.97))     # just inside each corner
+    minx, miny, maxx, maxy = shapely.unary_union([p for p in ref if p is not None and not p.is_empty]).bounds
+    pts += [shapely.Point(minx - 1.0, miny - 1.0), shapely.Point(maxx + 0.5, (miny + maxy) / 2)]
+    want = []
+    for p in pts:
+        hit = next((n for n in range(N) if ref[n] is not None and not ref[n].is_empty and ref[n].intersects(p)), None)
+        want.append(numpy.nan if hit is None else hit + 0.5)
+    want = numpy.array(want)
+    inside = ~numpy.isnan(want)
+    sel = cv.select_points(pts, missing_points='drop')
+    ctx.check([int(x) for x in sel['point'].values] == [k for k in range(len(pts)) if inside[k]], "'drop' labels the remaining points with their original positions")
+    ctx.check(bool(numpy.array_equal(sel['cell'].values, want[inside])), 'select_points[drop]: each remaining request holds the value of its own cell')
+    df = pandas.DataFrame({'lon': [p.x for p in pts], 'lat': [p.y for p in pts]})
+    ext = point_extraction.extract_dataframe(ds, df, ('lon', 'lat'), missing_points='fill')
+    ctx.check(len(ext['point']) == len(pts) and bool(numpy.array_equal(ext['cell'].values, want, equal_nan=True)),
+              "extract_dataframe[fill]: row k holds the values of its cell, misses hold missing data (cell)")
+    try:
+        cv.select_points(pts, missing_points='error')
+        ctx.check(bool(inside.all()), "'error' must raise when a point misses")
+    except point_extraction.NonIntersectingPoints as e:
+        ctx.check([int(i) for i in e.indexes] == [k for k in range(len(pts)) if not inside[k]], "'error' names exactly the points that miss, by position")
+
+
 def cases(tier):
+    for kind in ('mesh-fill0', 'mesh-fillmax', 'cf2d-nan-near-border'):
+        yield Case(f'reference-cells:{kind}', body_reference_cells, dict(kind=kind), max_paths=4)
     yield Case('many:101x100:2500-points', body_many, dict(ny=101, nx=100, npts=2500), max_paths=4)
     yield Case('many:5x6:1001-points', body_many, dict(ny=5, nx=6, npts=1001), max_paths=4)
     for conv in ('cf2d', 'shoc_simple'):
